@@ -22,13 +22,20 @@ fn filter_rules(an: &Analysis, rules: &[&str]) -> Vec<Finding> {
 }
 
 fn judge_rules(rules: &'static [&'static str]) -> Arc<Judge> {
-    Arc::new(move |_s: &CaseSpec, _o: &Outcome, an: &Analysis| Judged { findings: filter_rules(an, rules), out_of_premise: false, inconclusive: None })
+    Arc::new(move |_s: &CaseSpec, _o: &Outcome, an: &Analysis| Judged {
+        findings: filter_rules(an, rules),
+        out_of_premise: false,
+        inconclusive: if an.capped_with_progress { Some("harness event cap reached while the transfer was still progressing".to_string()) } else { None },
+    })
 }
 
 /// C04-style completion judge. Premise: conformant peer, data phase, at most 5
 /// datagrams lost or delayed past the timeout by the network.
 fn completion_findings(s: &CaseSpec, o: &Outcome, an: &Analysis) -> (Vec<Finding>, bool) {
-    let in_premise = s.peer.is_plain() && s.write_budget.is_none() && !s.hostile() && o.drops <= 5;
+    // each lost/late datagram costs the worker ceil(T_peer / T) failed receive attempts before the peer's own timer
+    // repairs it; the property's premise is fewer than 6 consecutive failed attempts
+    let per_loss = (s.peer.timer_ns + s.t_ns - 1) / s.t_ns.max(1);
+    let in_premise = s.peer.is_plain() && s.write_budget.is_none() && !s.hostile() && (o.drops as u64) * per_loss.max(1) <= 5;
     if !in_premise {
         return (vec![], true);
     }
@@ -378,7 +385,7 @@ pub fn build(id: &str, tier: &str, seed: u64, threads: usize) -> Option<Plan> {
                     let mut findings = filter_rules(an, &["CONTENT", "BEYOND_FINAL", "E2E", "R1", "R2", "R4", "ACK_UNSEEN", "FILE_AT_ACK", "FINAL_CONTENT", "PANIC", "UNBOUNDED"]);
                     let (f2, _) = completion_findings(s, o, an);
                     findings.extend(f2);
-                    let inconclusive = if an.wraps == 0 && s.nblocks() > 65535 { Some("no block beyond 65535 observed".to_string()) } else { None };
+                    let inconclusive = if an.capped_with_progress { Some("harness event cap reached while the transfer was still progressing".to_string()) } else if an.wraps == 0 && s.nblocks() > 65535 { Some("no block beyond 65535 observed".to_string()) } else { None };
                     Judged { findings, out_of_premise: false, inconclusive }
                 }),
                 required_classes: vec!["peer-complete"],
